@@ -261,7 +261,7 @@ class BlockMessageField(BlockBindMessageField[F]):
     @override(Block)
     def render(self) -> None:
         self.push_definition_comments()
-        snake_case_name = snake_case(self.message_field_name)
+        snake_case_name = snake_case(self.d.name)
         self.push(
             f'{self.message_field_name} {self.message_field_type} `json:"{snake_case_name}"`'
         )
